@@ -169,10 +169,21 @@ def run(E: Engine, rep: Report, tier: str) -> dict:
     # ------------------------------------------------------------ RESULTS
     _results(E, rep)
     rep.floor("TABLE", 80)
+    # --------------------------------------------------------------- SWAP
+    sw = _swapped_arguments(E, rep)
+    rep.floor("SWAP", 40)
+    # ----------------------------------------------------------- DEEPCOPY
+    bc = E.fn("pulser.backend.config.BackendConfig.__init__")
+    ok = False
+    for n in ast.walk(bc.node):
+        if isinstance(n, ast.Assign) and isinstance(n.targets[0], ast.Attribute) and n.targets[0].attr == "_backend_options":
+            v = n.value
+            ok = isinstance(v, ast.Call) and (dotted(v.func) or "") in ("copy.deepcopy", "deepcopy") and norm(v.args[0]) == "backend_options"
+    rep.check(ok, "SHARED", "BackendConfig.__init__|options-deep-copied", "the stored options are a deep copy of the arguments (two configs built from the same mutable arguments do not share them)", "BackendConfig no longer deep-copies its options: configs built from the same mutable argument (array, list, another config's options) share and can change each other's state", E.where(bc))
     # ------------------------------------------------------------- SHARED
     st = _shared(E, rep)
     rep.floor("SHARED", 10)
-    return {"schema_objects": n_obj, "shared": st}
+    return {"schema_objects": n_obj, "shared": st, "swap": sw}
 
 
 def _noise(E: Engine, rep: Report) -> None:
@@ -326,6 +337,54 @@ def _results(E: Engine, rep: Report) -> None:
     props = set(P.schemas["results-schema.json"]["definitions"]["Results"]["properties"])
     rep.check(rk <= wk and len(rk) >= 4, "TABLE", "Results|keys-read⊆keys-written", f"read {sorted(rk)}", f"Results._from_abstract_repr reads {sorted(rk - wk)} which _to_abstract_repr does not write", E.where(r[0]))
     rep.check(wk == props, "TABLE", "Results|keys-written=schema", f"{sorted(wk)}", f"Results writes {sorted(wk)} but the schema declares {sorted(props)}", SCH_DIR + "results-schema.json")
+
+
+def _swapped_arguments(E: Engine, rep: Report) -> dict:
+    """A positional argument whose name is the name of a *different* parameter of the callee."""
+    P = E.P
+    sc_mod = P.module("pulser_simulation.simconfig")
+    alias = {v: k for k, v in P.fold(sc_mod, sc_mod.assigns["_DIFF_NOISE_PARAMS"]).items()}
+    n_sites = 0
+    n_viol = 0
+    idx = E.call_index()
+    seen = set()
+    for callee_q, sites in sorted(idx.items()):
+        callee = P.functions.get(callee_q)
+        if callee is None or callee.kind in ("property", "cached_property", "setter"):
+            continue
+        for caller, e in sites:
+            n = e.node
+            if not isinstance(n, ast.Call) or id(n) in seen or len(e.callees) != 1:
+                continue
+            seen.add(id(n))
+            cal, mode = e.callees[0]
+            f = cal.innermost()
+            if cal.binding:
+                continue
+            params = [x.arg for x in f.node.args.posonlyargs + f.node.args.args]
+            if mode in ("bound", "ctor") and params:
+                params = params[1:]
+            elif f.cls is not None and f.kind == "classmethod" and params:
+                params = params[1:]
+            names = []
+            for a in n.args:
+                if isinstance(a, ast.Starred):
+                    break
+                t = a.attr if isinstance(a, ast.Attribute) else a.id if isinstance(a, ast.Name) else None
+                names.append(alias.get(t, t) if t else None)
+            if len(names) < 2 or not any(t in params for t in names if t):
+                continue
+            n_sites += 1
+            bad = [(i, t) for i, t in enumerate(names) if t and t in params and i < len(params) and params.index(t) != i and params[i] != t and (names.count(t) == 1)]
+            # only a genuine permutation: the parameter at position i is itself passed elsewhere
+            bad = [(i, t) for i, t in bad if params[i] in names]
+            key = f"{caller.short}|{f.short}|{','.join(str(i) for i, _t in bad) or 'ok'}"
+            if bad:
+                n_viol += 1
+                rep.violation("SWAP", key, f"call `{norm(n)[:120]}` passes {[t for _i, t in bad]} in the positions of parameters {[params[i] for i, _t in bad]} of {f.short}{tuple(params)}: arguments swapped", E.where(caller, n))
+            else:
+                rep.ok("SWAP", f"{caller.short}|{f.short}|L{len(names)}|{'-'.join(t or '_' for t in names)[:60]}", "positional arguments named like parameters are in their positions", E.where(caller, n), nontrivial=True)
+    return {"call_sites_with_named_positionals": n_sites, "swapped": n_viol}
 
 
 def _shared(E: Engine, rep: Report) -> dict:
